@@ -699,6 +699,49 @@ pub async fn rtu_server_reopen(k: usize, ev: &mut Evidence) -> Vec<(String, Stri
     problems
 }
 
+/// A port speed the driver happens to accept although it makes no sense (0 baud on a pty): whatever
+/// the channel does with it, its task must not die - the listener still ends with Shutdown.
+pub async fn serial_odd_settings(ev: &mut Evidence) -> Vec<(String, String)> {
+    let mut problems = vec![];
+    for baud in [0u32, 1, u32::MAX] {
+        let Some(pty) = Pty::open() else {
+            ev.count("pty_unavailable", 1);
+            return problems;
+        };
+        let (tx, mut rx) = mpsc::unbounded_channel();
+        let (channel, task) = create_rtu_client_task(
+            &pty.slave_path,
+            SerialSettings { baud_rate: baud, ..Default::default() },
+            4,
+            doubling_retry_strategy(Duration::from_millis(20), Duration::from_millis(40)),
+            DecodeLevel::nothing(),
+            Some(Box::new(PortGate { tx })),
+        );
+        let jh = tokio::spawn(task.run());
+        let _ = channel.enable().await;
+        tokio::time::sleep(Duration::from_millis(150)).await;
+        let r = tokio::time::timeout(Duration::from_secs(3), channel.read_coils(RequestParam::new(UnitId::new(1), Duration::from_millis(50)), AddressRange::try_from(0, 1).unwrap())).await;
+        let _ = channel.shutdown().await;
+        let end = tokio::time::timeout(Duration::from_secs(5), jh).await;
+        let mut names = vec![];
+        while let Ok((s, _)) = rx.try_recv() {
+            names.push(port_name(&s));
+        }
+        ev.eval();
+        ev.count("serial_odd_settings_scripts", 1);
+        ev.class(format!("serial_client|baud={baud}|{}", names.iter().take(3).cloned().collect::<Vec<_>>().join(">")));
+        match end {
+            Ok(Ok(_)) => {}
+            Ok(Err(e)) => problems.push((format!("serial:task_{}:baud={baud}", if e.is_panic() { "panicked" } else { "cancelled" }), format!("serial client task with baud rate {baud} ended abnormally: {e}; states {names:?}; request result {r:?}"))),
+            Err(_) => problems.push((format!("serial:task_did_not_terminate:baud={baud}"), format!("states {names:?}"))),
+        }
+        if names.last() != Some(&"Shutdown") {
+            problems.push((format!("serial:shutdown_not_last:baud={baud}"), format!("port listener path {names:?}")));
+        }
+    }
+    problems
+}
+
 pub fn merge(ev: &mut Evidence, problems: Vec<(String, String)>, what: &str) {
     for (sig, text) in problems {
         ev.violation(sig, text, json!({"leg": what}));
